@@ -754,7 +754,7 @@ INNER JOIN contracts_v2 c ON (csr.contract_id=c.id)
 -- past expiration or not confirmed and past the rebroadcast height
 WHERE c.expiration_height < $1 OR c.contract_status=$2 LIMIT $3)
 RETURNING sector_id;`
-	rows, err := tx.Query(query, height, contracts.ContractStatusRejected, sqlSectorBatchSize)
+	rows, err := tx.Query(query, height, contracts.V2ContractStatusRejected, sqlSectorBatchSize)
 	if err != nil {
 		return nil, err
 	}
@@ -931,7 +931,7 @@ func proofContracts(tx *txn, index types.ChainIndex) (revisions []contracts.Sign
 }
 
 func rebroadcastV2Contracts(tx *txn) (rebroadcast []rhp4.TransactionSet, err error) {
-	rows, err := tx.Query(`SELECT formation_txn_set, formation_txn_set_basis FROM contracts_v2 WHERE confirmation_index IS NULL AND contract_status <> ?`, contracts.ContractStatusRejected)
+	rows, err := tx.Query(`SELECT formation_txn_set, formation_txn_set_basis FROM contracts_v2 WHERE confirmation_index IS NULL AND contract_status <> ?`, contracts.V2ContractStatusRejected)
 	if err != nil {
 		return nil, err
 	}
